@@ -137,6 +137,20 @@ impl SigningKey {
             return Err(PasetoError::CryptoError);
         }
 
+        #[cfg(paseto_verif)]
+        if let Some(k) = paseto_core::verif::ecdsa_nonce() {
+            let sig = LcPtr::new(unsafe {
+                aws_lc::ECDSA_sign_with_nonce_and_leak_private_key_for_testing(
+                    digest.as_ptr(),
+                    digest.len(),
+                    *key,
+                    k.as_ptr(),
+                    k.len(),
+                )
+            })?;
+            return Ok(Signature { sig });
+        }
+
         let mut sig_len = 0;
         let mut sig = [0; 104];
         let res = unsafe {
